@@ -486,6 +486,12 @@ structure Cred where
   statuses : Option (List StatusEntry)    -- none: `CredentialStatus == nil`
   deriving DecidableEq, Repr
 
+/-- `if credentialToVerify.ID != nil { revoked, err := v.IsRevoked(*credentialToVerify.ID) … }` -/
+def Node.credRevoked (n : Node) (c : Cred) : Bool :=
+  match c.id with
+  | some id => n.isRevoked id
+  | none => false
+
 /-! ## two nodes and foreign hosts -/
 
 structure World where
@@ -539,7 +545,7 @@ def statusVerify (E : Env) (i : Bool) (w : World) (c : Cred) : Verdict × World 
 /-- the revocation part of `verifier.Verify`: network revocation first, then the credential status with soft fail.
     `.ok` = not rejected as revoked (the remaining checks of Verify are outside this property) -/
 def verify (E : Env) (i : Bool) (w : World) (c : Cred) : Verdict × World :=
-  if (match c.id with | some id => (w.get i).isRevoked id | none => false) then (.revoked, w) else
+  if (w.get i).credRevoked c then (.revoked, w) else
   match statusVerify E i w c with
   | (.revoked, w') => (.revoked, w')
   | (_, w') => (.ok, w')
